@@ -114,6 +114,11 @@ func (f *Frame) execInstr(b *ssa.BasicBlock, in ssa.Instruction, o *blockOut) bo
 		r := vc.newRef("new." + x.Comment)
 		vc.markAlloc(st, r, et)
 		p := Val{K: KPtr, T: r, Typ: x.Type()}
+		if _, isStruct := structOf(et); isStruct && !x.Heap && !hasArrayField(et) && nonEscapingAlloc(x) {
+			// a struct variable whose address never leaves this function: private storage,
+			// cannot alias any heap object
+			p.Local = "L." + f.fn.Name() + "." + x.Name()
+		}
 		if kindOf(et) == KArray {
 			// array storage: elements zero-initialised lazily (unconstrained contents are a sound over-approximation for reads)
 			f.env[x] = p
@@ -301,6 +306,52 @@ func (f *Frame) execInstr(b *ssa.BasicBlock, in ssa.Instruction, o *blockOut) bo
 		}
 	}
 	return false
+}
+
+func hasArrayField(t types.Type) bool {
+	s, ok := structOf(t)
+	if !ok {
+		return kindOf(t) == KArray
+	}
+	for i := 0; i < s.NumFields(); i++ {
+		if hasArrayField(s.Field(i).Type()) {
+			return true
+		}
+	}
+	return false
+}
+
+// nonEscapingAlloc reports whether the address of a local variable is only used
+// for field accesses, loads and stores within its function.
+func nonEscapingAlloc(a *ssa.Alloc) bool {
+	var ok func(v ssa.Value, depth int) bool
+	ok = func(v ssa.Value, depth int) bool {
+		refs := v.Referrers()
+		if refs == nil || depth > 4 {
+			return false
+		}
+		for _, r := range *refs {
+			switch x := r.(type) {
+			case *ssa.DebugRef:
+			case *ssa.UnOp:
+				if x.Op.String() != "*" {
+					return false
+				}
+			case *ssa.Store:
+				if x.Val == v {
+					return false
+				}
+			case *ssa.FieldAddr:
+				if !ok(x, depth+1) {
+					return false
+				}
+			default:
+				return false
+			}
+		}
+		return true
+	}
+	return ok(a, 0)
 }
 
 func fieldName(x *ssa.FieldAddr) string {
